@@ -142,7 +142,13 @@ func NewEngine(p *Program) *Engine {
 
 func (e *Engine) newRegion() *Term {
 	e.nextRgn++
-	return e.C.Const(32, uint64(FreshBase+e.nextRgn))
+	e.C.Epoch = e.nextRgn
+	return e.C.Const(RgnW, uint64(FreshBase+e.nextRgn))
+}
+
+func (e *Engine) setRgn(n uint32) {
+	e.nextRgn = n
+	e.C.Epoch = n
 }
 
 func (e *Engine) typeID(t types.Type) uint32 {
@@ -162,7 +168,7 @@ func (e *Engine) globalRegion(g *ssa.Global) *Term {
 		id = uint32(0x1000 + len(e.globals))
 		e.globals[g] = id
 	}
-	return e.C.Const(32, uint64(id))
+	return e.C.Const(RgnW, uint64(id))
 }
 
 const funcRegion = 2
@@ -174,7 +180,7 @@ func (e *Engine) funcPtr(fn *ssa.Function) Ptr {
 		e.funcIDs[fn] = id
 		e.funcByID[id] = fn
 	}
-	return Ptr{e.C.Const(32, funcRegion), e.C.Const(64, id)}
+	return Ptr{e.C.Const(RgnW, funcRegion), e.C.Const(64, id)}
 }
 
 // ---------------------------------------------------------------------------------------------
@@ -285,11 +291,11 @@ func (e *Engine) stringConst(s string) Value {
 	}
 	id, ok := e.strRegions[s]
 	if !ok {
-		id = uint32(0x100000 + len(e.strRegions))
+		id = uint32(0x10000 + len(e.strRegions))
 		e.strRegions[s] = id
 		e.strByRegion[id] = s
 	}
-	return Str{Ptr{c.Const(32, uint64(id)), c.Const(64, 0)}, c.Const(64, uint64(len(s)))}
+	return Str{Ptr{c.Const(RgnW, uint64(id)), c.Const(64, 0)}, c.Const(64, uint64(len(s)))}
 }
 
 // runFunc executes fn's body from a state, calling k at every Return.
@@ -798,7 +804,7 @@ func (e *Engine) eqValues(st *State, a, b Value, ta, tb types.Type) *Term {
 		ib := b.(Iface)
 		// comparison of two non-nil interfaces with the same dynamic type compares the boxed values;
 		// exact when either side is nil, else approximated by box identity OR unknown equality.
-		nilA, nilB := c.Eq(ia.Typ, c.Const(32, 0)), c.Eq(ib.Typ, c.Const(32, 0))
+		nilA, nilB := c.Eq(ia.Typ, c.Const(TypW, 0)), c.Eq(ib.Typ, c.Const(TypW, 0))
 		if nilA.IsTrue() || nilB.IsTrue() {
 			return c.Eq(ia.Typ, ib.Typ)
 		}
@@ -1133,7 +1139,7 @@ func (e *Engine) convert(fr *frame, st *State, x *ssa.Convert) Value {
 
 func (e *Engine) makeInterface(st *State, v Value, t types.Type) Value {
 	c := e.C
-	id := c.Const(32, uint64(e.typeID(t)))
+	id := c.Const(TypW, uint64(e.typeID(t)))
 	if isPointerShaped(t) {
 		return Iface{id, toPtr(v)}
 	}
@@ -1161,11 +1167,11 @@ func (e *Engine) typeAssert(fr *frame, st *State, x *ssa.TypeAssert) Value {
 				ok = c.Bool(types.Implements(dt, at.Underlying().(*types.Interface)))
 			}
 		} else {
-			ok = c.And(c.Ne(iv.Typ, c.Const(32, 0)), c.App("implements_"+sanitize(types.TypeString(at, nil)), BoolSort(), iv.Typ))
+			ok = c.And(c.Ne(iv.Typ, c.Const(TypW, 0)), c.App("implements_"+sanitize(types.TypeString(at, nil)), BoolSort(), iv.Typ))
 		}
 		val = iv
 	} else {
-		id := c.Const(32, uint64(e.typeID(at)))
+		id := c.Const(TypW, uint64(e.typeID(at)))
 		ok = c.Eq(iv.Typ, id)
 		if isPointerShaped(at) {
 			if _, isSig := at.Underlying().(*types.Signature); isSig {
